@@ -592,7 +592,6 @@ func identitiesDistinct(g gInfo) bool {
 	return true
 }
 
-
 // clip quotes a string for a report, eliding the middle of a long one.
 func clip(s string) string {
 	if len(s) <= 160 {
@@ -1217,6 +1216,9 @@ func Run(r *common.Run) error {
 			c.info(g, "replay", 8)
 			c.entryPoints(g, []byte("ab"))
 			c.concurrentOn(g, 400)
+			if len(g.forms) > 0 {
+				c.historyOn(g)
+			}
 		}
 		return nil
 	}
